@@ -414,7 +414,7 @@ def _type_check_comparison_operator(expression, source_file_name, errors):
 
 def _type_check_choice_operator(expression, source_file_name, errors):
     """Checks the type of the choice operator cond ? if_true : if_false."""
-    condition = expression.function.args[0]
+    condition = ir_data_utils.reader(expression.function.args[0])
     if condition.type.which_type != "boolean":
         errors.append(
             [
@@ -425,7 +425,7 @@ def _type_check_choice_operator(expression, source_file_name, errors):
                 )
             ]
         )
-    if_true = expression.function.args[1]
+    if_true = ir_data_utils.reader(expression.function.args[1])
     if if_true.type.which_type not in ("integer", "boolean", "enumeration"):
         errors.append(
             [
@@ -438,7 +438,7 @@ def _type_check_choice_operator(expression, source_file_name, errors):
             ]
         )
         return
-    if_false = expression.function.args[2]
+    if_false = ir_data_utils.reader(expression.function.args[2])
     if not _types_are_compatible(if_true, if_false):
         errors.append(
             [
